@@ -344,12 +344,18 @@ func (g *Gen) Token(class int, kind string, nano int64, arg string, challenge st
 		return "!!" + tok
 	case 9:
 		return strings.Join(strings.Split(tok, ".")[:2], ".")
+	case 10: // more fields than the format has (each of them well-formed base64)
+		return tok + "." + base64.StdEncoding.EncodeToString([]byte("extra"))
+	case 11:
+		return tok + ".AAAA.AAAA"
+	case 12: // empty fields
+		return ".."
 	}
 	return tok
 }
 
 func (g *Gen) genToken(t *rapid.T, kind, arg string, s *SessInfo) string {
-	class := pickW(t, "tokclass", 8, 1, 3, 3, 1, 1, 1, 1, 1, 1)
+	class := pickW(t, "tokclass", 8, 1, 3, 3, 1, 1, 1, 1, 1, 1, 1, 1, 1)
 	ch := "00000000"
 	if s != nil && len(s.Auth) >= 8 {
 		ch = s.Auth[:8]
